@@ -69,6 +69,24 @@ class StopAt(object):
         el.fill(v)
 
 
+class Dual(object):
+    """a run element that also has fill and compute (like lena.flow.Count)"""
+
+    def __init__(self, tag, log):
+        self.tag, self.log, self.n = tag, log, 0
+
+    def run(self, flow):
+        self.log.append((self.tag, "run"))
+        for v in flow:
+            yield (self.tag, "d", v)
+
+    def fill(self, v):
+        self.n += 1
+
+    def compute(self):
+        yield (self.tag, "dual-computed", self.n)
+
+
 class Post(object):
     def __call__(self, r):
         return ("post", r)
@@ -131,6 +149,9 @@ def mk_branch(spec, tag, log):
         return (Run(None, run=run),)
     if k == "slice":
         return Sequence(Slice(spec[1]), lambda v: (tag, "s", v))
+    if k == "seq_dual":
+        # an explicit Sequence is run block by block whatever methods its elements have besides run
+        return Sequence(Dual(tag, log))
     raise AssertionError(spec)
 
 
@@ -196,6 +217,8 @@ class RefBranch(object):
             return [(tag, "t", v) for v in block] + [(tag, "end")]
         if k == "slice":
             return [(tag, "s", v) for v in block[:self.spec[1]]]
+        if k == "seq_dual":
+            return [(tag, "d", v) for v in block]
         raise AssertionError(k)
 
 
@@ -273,6 +296,7 @@ spec_strat = st.one_of(
     st.builds(lambda n: ["nested_fr", n], st.integers(1, 3)),
     st.just(["map"]), st.just(["map_t"]), st.just(["filt"]), st.just(["exp"]), st.just(["tail"]),
     st.builds(lambda k: ["slice", k], st.integers(0, 3)),
+    st.just(["seq_dual"]),
 )
 
 
@@ -329,7 +353,7 @@ def judge_run(case):
             c = log.count((i, "request"))
             if c != calls[i]:
                 raise Violation("fill-request-branch-request-count", "branch %d: request called %d times, expected %d; %s" % (i, c, calls[i], short(case)))
-        elif s[0] in ("filt", "exp", "tail"):
+        elif s[0] in ("filt", "exp", "tail", "seq_dual"):
             c = log.count((i, "run"))
             if c != calls[i]:
                 raise Violation("sequence-branch-run-count", "branch %d: run called %d times, expected %d; %s" % (i, c, calls[i], short(case)))
@@ -484,7 +508,7 @@ def judge_invalid(case):
 
 CHECKS = [
     Check("run_schedule", judge_run, strategy=lambda tier: run_case() if tier != "thorough" else st.one_of(run_case(), run_case(big=True)), quick=3000, thorough=100000,
-          rule="0-4 branches from thirteen tagged kinds (Source, bare and tuple fill/compute, nested Splits of one common type, bare and tuple fill/request with LenaStopFill at index k, "
+          rule="0-4 branches from fourteen tagged kinds (Source, bare and tuple fill/compute, nested Splits of one common type, bare and tuple fill/request with LenaStopFill at index k, "
                "map, filter, 1:n expander, per-block tail, Slice sequence) x bufsize in {1..4, n+1, 1000, None} x copy_buf x flows 0..10; exact output list "
                "and invocation counts. Non-trivial = >=2 branches of >=2 kinds over >=2 blocks, a LenaStopFill in a later block, or an empty flow with >=2 branches."),
     Check("common_type", judge_common, strategy=lambda tier: common_case(), quick=1200, thorough=30000,
